@@ -91,6 +91,9 @@ func (s *c16Source) ZeroCopyReadPacketData() ([]byte, gopacket.CaptureInfo, erro
 
 func c16Packet(r *vlib.Rand, id int) c16Item {
 	payload := make([]byte, 8+r.Intn(40))
+	if r.Chance(1, 8) {
+		payload = make([]byte, r.Range(1440, 9000)) // around and above the pool block size: the pooled path must still copy
+	}
 	binary.BigEndian.PutUint64(payload, uint64(id)|0xabcd<<48)
 	r.Fill(payload[8:])
 	src, dst := pk.A4(r.Bytes(4)), pk.A4(r.Bytes(4))
@@ -159,7 +162,7 @@ func (o c16Opts) String() string {
 }
 
 func c16MkSource(items []c16Item, o c16Opts) (*c16Source, *gopacket.PacketSource) {
-	src := &c16Source{items: items, zero: o.zero, buf: make([]byte, 256), after: io.EOF}
+	src := &c16Source{items: items, zero: o.zero, buf: make([]byte, 16384), after: io.EOF}
 	var ps *gopacket.PacketSource
 	if o.zero {
 		ps = gopacket.NewZeroCopyPacketSource(src, layers.LayerTypeEthernet)
